@@ -40,6 +40,7 @@ EmitModel ==
                     deep |-> DeepShape(DParse(T, tk).e),
                     up |-> Unparse(T, DParse(T, tk).e, <<64>>, TRUE),
                     \* step level: the decisions of compile() and the steps of eval_binary, as the hooks report them
-                    comp |-> CompileSteps(f), steps_wo |-> EvalSteps(f), steps |-> EvalSteps(Compile(f))]))      \* `@`: any number node that is not a plain literal
+                    comp |-> CompileSteps(f), steps_wo |-> EvalSteps(f), steps |-> EvalSteps(Compile(f)),
+                    dcomp |-> DParse(T, tk).tr]))                 \* folds of all compile() calls of the deep parse      \* `@`: any number node that is not a plain literal
 ASSUME Emit => PrintT(ToJson([table |-> T]))
 =============================================================================
